@@ -10,7 +10,7 @@ are universally quantified.  Notation: `idx = unmaskedPixels m` (= `native_index
 `N = idx.length`, `P[d,a] = Spec.pMat K idx d a = K[idx d − idx a + half]`, `σ = noise` (slim).
 The modelled code is the repaired one (fixes D1, D2, D3 of DESIGN §6).
 -/
-import Proofs.NormalEqAgree
+import Proofs.NormalEqExtra
 
 open Model Model.Spec
 
@@ -191,5 +191,151 @@ theorem e_mapper_func_block_agrees (m : Mask) (K : Kernel α) (noise : List α) 
           (Impl.convolveMatrix (Impl.frames m K) M).get d p / vget noise d
             * (Bf.get d l / vget noise d) :=
   mapperFuncBlock_agree m K noise U M Bf hU hr hrf p l hp hl
+
+/-! ## object order and the whole inversion
+
+An object list is written `P ++ o :: Q`: the parameters of `o` are the indices `totalParams P + li`,
+`li < o.params`; `opOf ds o` is `o`'s own blurred mapping matrix `P·M_o`. -/
+
+/-- (a5) blocks follow the order of the linear objects: the columns of `operated_mapping_matrix` that
+    belong to `o` are the columns of `o`'s blurred mapping matrix, at offset `totalParams P`. -/
+theorem a_operated_columns_in_object_order (ds : Dataset α) (P : List (LinObj α)) (o : LinObj α)
+    (Q : List (LinObj α)) :
+    (Impl.operatedMappingMatrix ds (P ++ o :: Q)).r = (Impl.nativeForSlim ds.mask).length ∧
+    (Impl.operatedMappingMatrix ds (P ++ o :: Q)).c = Impl.totalParams (P ++ o :: Q) ∧
+    ∀ d li, d < (Impl.nativeForSlim ds.mask).length → li < o.params →
+      (Impl.operatedMappingMatrix ds (P ++ o :: Q)).get d (Impl.totalParams P + li)
+        = (opOf ds o).get d li :=
+  operatedMappingMatrix_block ds P o Q
+
+/-- (a6) `InversionImagingMapping.data_vector`: the entries of object `o` are `B_oᵀ N⁻¹ d` -/
+theorem a_inversion_data_vector (ds : Dataset α) (P : List (LinObj α)) (o : LinObj α)
+    (Q : List (LinObj α)) (li : Nat) (hli : li < o.params) :
+    (Impl.dataVectorMap ds (P ++ o :: Q)).get (Impl.totalParams P + li)
+      = sumRange (Impl.nativeForSlim ds.mask).length fun d =>
+          vget ds.data d * (opOf ds o).get d li / (vget ds.noise d * vget ds.noise d) :=
+  dataVectorMap_block ds P o Q li hli
+
+/-- (a7) `InversionImagingMapping.curvature_matrix`: the block of the ordered pair `(o, o')` is
+    `B_oᵀ N⁻¹ B_o'`, plus `value` exactly on the diagonal entries of objects without regularization. -/
+theorem a_inversion_curvature (ds : Dataset α) (value : α) (objs P : List (LinObj α)) (o : LinObj α)
+    (Q P' : List (LinObj α)) (o' : LinObj α) (Q' : List (LinObj α))
+    (h : objs = P ++ o :: Q) (h' : objs = P' ++ o' :: Q')
+    (li lj : Nat) (hli : li < o.params) (hlj : lj < o'.params) :
+    (Impl.curvatureMap ds objs value).get (Impl.totalParams P + li) (Impl.totalParams P' + lj)
+      = (sumRange (Impl.nativeForSlim ds.mask).length fun d =>
+          (opOf ds o).get d li / vget ds.noise d * ((opOf ds o').get d lj / vget ds.noise d))
+        + if Impl.totalParams P + li = Impl.totalParams P' + lj ∧ o.hasReg = false then value else 0 := by
+  rw [curvatureMap_block ds value objs P o Q P' o' Q' h h' li lj hli hlj]
+  congr 1
+  have hnr := noRegOf_ranged objs 0
+  rw [noRegIndexList_eq, diag_term_nodup _ hnr.2.1]
+  have hmem := hnr.2.2 P o Q li h hli
+  rw [Nat.zero_add] at hmem
+  by_cases hc : Impl.totalParams P + li = Impl.totalParams P' + lj ∧ o.hasReg = false
+  · rw [if_pos hc, if_pos ⟨hc.1, hmem.mpr hc.2⟩]
+  · rw [if_neg hc, if_neg (fun hh => hc ⟨hh.1, hmem.mp hh.2⟩)]
+
+/-- (b3) the unique mappings of a mapper encode its mapping matrix (C06.e), given the over-sampler's
+    contract on `slim_index_for_sub_slim_index` / `sub_size` -/
+theorem b_unique_mappings_encode (t : MapperTables α) (n : Nat) (hb : BlocksOK t n) :
+    Encodes (Impl.uniqueFrom t n) (Impl.mappingMatrixFrom t n) :=
+  uniqueFrom_encodes t n hb
+
+/-- (e4) object order in the w-tilde curvature matrix before mirroring: rows of `o`, columns of `o'` hold
+    the block computed for the ordered pair (zeros where the code writes none) -/
+theorem e_w_tilde_blocks_in_object_order (ds : Dataset α) (objs P : List (LinObj α)) (o : LinObj α)
+    (Q P' : List (LinObj α)) (o' : LinObj α) (Q' : List (LinObj α))
+    (h : objs = P ++ o :: Q) (h' : objs = P' ++ o' :: Q')
+    (li lj : Nat) (hli : li < o.params) (hlj : lj < o'.params) :
+    (assembledWT ds objs).get (Impl.totalParams P + li) (Impl.totalParams P' + lj)
+      = match Impl.blockWT ds (Impl.wTildePreloadOf ds) (Impl.frames ds.mask ds.kernel)
+          (Impl.nativeForSlim ds.mask).length P.length P'.length o o' with
+        | some blk => blk.get li lj
+        | none => 0 :=
+  (assembledWT_block ds objs P o Q P' o' Q' h h' li lj hli hlj).2.2
+
+/-- the property's hypotheses hold as soon as every mapper's tables satisfy the over-sampler's contract -/
+theorem admissible_of_blocks (ds : Dataset α) (objs : List (LinObj α))
+    (hf : Footprint ds.mask ds.kernel)
+    (hpos : ∀ k, k < (unmaskedPixels ds.mask).length → 0 < vget ds.noise k)
+    (hb : ∀ t b, LinObj.mapper t b ∈ objs → BlocksOK t (unmaskedPixels ds.mask).length) :
+    Admissible ds objs :=
+  ⟨hf, hpos, fun t b hm => uniqueFrom_encodes t _ (hb t b hm)⟩
+
+/-- **(e5) the two formalisms return the same curvature matrix and the same data vector**, for every
+    dataset (mask with the footprint inside the frame, any odd-or-not, square-or-not, signed-or-not PSF,
+    positive noise, any data), every ordered list of mappers and function lists, every diagonal value. -/
+theorem e_formalisms_agree (ds : Dataset α) (objs : List (LinObj α))
+    (hf : Footprint ds.mask ds.kernel)
+    (hpos : ∀ k, k < (unmaskedPixels ds.mask).length → 0 < vget ds.noise k)
+    (hb : ∀ t b, LinObj.mapper t b ∈ objs → BlocksOK t (unmaskedPixels ds.mask).length)
+    (value : α) :
+    Impl.curvatureWT ds objs value = Impl.curvatureMap ds objs value ∧
+    Impl.dataVectorWT ds objs = Impl.dataVectorMap ds objs :=
+  formalisms_agree ds objs (admissible_of_blocks ds objs hf hpos hb) value
+
+/-- (e6) hence equal reconstructions for any deterministic solver of `(F + H) s = D` -/
+theorem e_any_solver_agrees {β : Type} (solver : Mat α → Vec α → β) (ds : Dataset α)
+    (objs : List (LinObj α)) (hf : Footprint ds.mask ds.kernel)
+    (hpos : ∀ k, k < (unmaskedPixels ds.mask).length → 0 < vget ds.noise k)
+    (hb : ∀ t b, LinObj.mapper t b ∈ objs → BlocksOK t (unmaskedPixels ds.mask).length)
+    (value : α) :
+    solver (Impl.curvatureWT ds objs value) (Impl.dataVectorWT ds objs)
+      = solver (Impl.curvatureMap ds objs value) (Impl.dataVectorMap ds objs) := by
+  obtain ⟨h1, h2⟩ := e_formalisms_agree ds objs hf hpos hb value
+  rw [h1, h2]
+
+/-- (e7) and equal mapped reconstructed data: mapping back through the unique mappings and blurring with
+    `convolve_image_no_blurring` equals multiplying the blurred mapping matrix by the reconstruction. -/
+theorem e_mapped_reconstructed_data_agrees (fr U : Rows α) (M : Mat α) (hU : Encodes U M) (s : List α)
+    (hs : s.length = M.c) (t : Nat) (ht : t < M.r) :
+    (Impl.convolveNoBlurring fr (Impl.mappedViaUnique U s).toList).get t
+      = (Impl.mappedViaMatrix (Impl.convolveMatrix fr M) s).get t :=
+  mappedData_agree fr U M hU s hs t ht
+
+/-- (e8) the w-tilde curvature matrix is symmetric -/
+theorem e_w_tilde_curvature_symmetric (ds : Dataset α) (objs : List (LinObj α))
+    (hf : Footprint ds.mask ds.kernel)
+    (hpos : ∀ k, k < (unmaskedPixels ds.mask).length → 0 < vget ds.noise k)
+    (hb : ∀ t b, LinObj.mapper t b ∈ objs → BlocksOK t (unmaskedPixels ds.mask).length)
+    (value : α) (i j : Nat) (hi : i < Impl.totalParams objs) (hj : j < Impl.totalParams objs) :
+    (Impl.curvatureWT ds objs value).get i j = (Impl.curvatureWT ds objs value).get j i := by
+  rw [(e_formalisms_agree ds objs hf hpos hb value).1]
+  have hc : (Impl.operatedMappingMatrix ds objs).c = Impl.totalParams objs := by
+    unfold Impl.operatedMappingMatrix Impl.hstack Mat.ofLists
+    simp only [Mat.ofFn_c]
+    exact operatedList_width ds objs
+  exact a_curvature_symmetric _ _ _ _ _ i j (by rw [hc]; exact hi) (by rw [hc]; exact hj)
+
+/-! ## non-vacuity
+
+A concrete dataset meeting every hypothesis: 3×5 frame with three unmasked pixels, a non-square (1×3) kernel
+with a negative entry, unequal noise, a function list (without regularization) placed BEFORE a mapper whose
+second data pixel maps to two mesh pixels.  The main theorem instantiates on it (so its hypotheses are
+jointly satisfiable); `#eval` of both sides gives
+`F = [[153/4, -33/4, 25/4], [-33/4, 81/16, 11/16], [25/4, 11/16, 57/16]]` for noise `[1, 2, 1/2]`. -/
+
+def exMask : Mask :=
+  ⟨3, 5, [true, true, true, true, true,  true, false, false, false, true,  true, true, true, true, true]⟩
+def exKernel : Kernel Rat := ⟨1, 3, [2, 1, -1]⟩
+def exDataset : Dataset Rat := ⟨exMask, exKernel, [1, -2, 3], [1, 2, 4]⟩
+def exTables : MapperTables Rat :=
+  { pixels := 2, subRows := [[(0, 1)], [(1, 1), (0, 2)], [(1, 1)]], slimForSub := [0, 1, 2],
+    subFraction := [1, 1, 1], subSize := [1, 1, 1] }
+def exObjs : List (LinObj Rat) := [.funcList 1 [[1], [-1], [2]] false, .mapper exTables true]
+
+instance (m : Mask) (K : Kernel Rat) : Decidable (Footprint m K) := by unfold Footprint; infer_instance
+
+example : Impl.curvatureWT exDataset exObjs (1 / 4) = Impl.curvatureMap exDataset exObjs (1 / 4) ∧
+    Impl.dataVectorWT exDataset exObjs = Impl.dataVectorMap exDataset exObjs :=
+  e_formalisms_agree exDataset exObjs (by decide) (by decide)
+    (by
+      intro t b hm
+      simp only [exObjs, List.mem_cons, List.mem_nil_iff, or_false, reduceCtorEq, false_or,
+        LinObj.mapper.injEq] at hm
+      obtain ⟨rfl, rfl⟩ := hm
+      unfold BlocksOK
+      decide) _
 
 end C04
